@@ -9,9 +9,9 @@ From DippyV Require Import Base.Str Model.Layers Proofs.DictP Proofs.LayersP Pro
 
 (* ---- nearest project file: the first level of the chain whose .dippy is a regular file --------------------- *)
 (* exact characterisation of _find_project_config for every chain: a hit is preceded only by levels that are
-   not files; no hit iff no level is a file; the only other outcome is an uncaught PermissionError, raised by
-   the first level that is not "not a file"; never a ConfigError *)
-Theorem C10_nearest : forall chain,
+   not files; no hit iff no level is a file; the only other outcome is a PermissionError, raised by
+   the first level that is not "not a file" *)
+Theorem C10_nearest_raw : forall chain,
   (forall p r, find_project chain = Ok (Some (p, r)) <->
      exists pre post, chain = pre ++ p :: post /\ Forall notfile pre /\ is_file (pl_entry p) = IsYes r) /\
   (find_project chain = Ok None <-> Forall notfile chain) /\
@@ -19,11 +19,23 @@ Theorem C10_nearest : forall chain,
      exists pre p post, chain = pre ++ p :: post /\ Forall notfile pre /\ is_file (pl_entry p) = IsErr) /\
   find_project chain <> ConfigErr.
 Proof. exact find_project_spec. Qed.
+Print Assumptions C10_nearest_raw.
+(* as load_config uses it (the PermissionError is turned into a ConfigError): a level that cannot be examined
+   is a config error, never an escaping exception *)
+Theorem C10_nearest : forall chain,
+  (forall p r, find_project_checked chain = Ok (Some (p, r)) <->
+     exists pre post, chain = pre ++ p :: post /\ Forall notfile pre /\ is_file (pl_entry p) = IsYes r) /\
+  (find_project_checked chain = Ok None <-> Forall notfile chain) /\
+  (find_project_checked chain = ConfigErr <->
+     exists pre p post, chain = pre ++ p :: post /\ Forall notfile pre /\ is_file (pl_entry p) = IsErr) /\
+  find_project_checked chain <> Crash.
+Proof. exact find_project_checked_spec. Qed.
 Print Assumptions C10_nearest.
 
 (* cwd depth: any number of levels without a regular .dippy below the chain changes nothing *)
-Theorem C10_nearest_depth : forall pre chain, Forall notfile pre -> find_project (pre ++ chain) = find_project chain.
-Proof. exact find_project_skip. Qed.
+Theorem C10_nearest_depth : forall pre chain, Forall notfile pre ->
+  find_project_checked (pre ++ chain) = find_project_checked chain.
+Proof. exact find_project_checked_skip. Qed.
 Print Assumptions C10_nearest_depth.
 
 (* directories, special files, absent entries, dangling links - reached through any number of symlinks -
@@ -169,11 +181,13 @@ Example C10_example :
   /\ res_map (map r_scope) (res_map rules (load_config mini_parse ex_layout)) = Ok [Some s_user; Some s_project; Some s_env]
   /\ res_map (option_map (fun x => pl_path (fst x))) (find_project (l_chain ex_layout)) = Ok (Some $"/w/a/.dippy").
 Proof. vm_compute. auto. Qed.
-(* the failure modes: an unexpandable $DIPPY_CONFIG escapes as a non-ConfigError exception; an unreadable
-   user file is a ConfigError; a .dippy that stat() is denied on escapes from the project search *)
+(* an unexpandable $DIPPY_CONFIG is an absent layer; an unreadable user file is a ConfigError; a .dippy that
+   stat() is denied on is a ConfigError too (all three layers alike); an undecodable file still escapes *)
 Example C10_example_errors :
-  load_config mini_parse (with_env ex_layout EnvNoUser) = Crash /\
+  load_config mini_parse (with_env ex_layout EnvNoUser) = load_config mini_parse (with_env ex_layout EnvUnset) /\
+  (exists c, load_config mini_parse (with_env ex_layout EnvNoUser) = Ok c) /\
   load_config mini_parse (with_user ex_layout (mkPlace $"/h/.dippy/config" (EFile RPerm))) = ConfigErr /\
-  load_config mini_parse (with_chain ex_layout [mkPlace $"/w/.dippy" (ELink EDenied)]) = Crash /\
-  load_config mini_parse (with_env ex_layout (EnvAt (mkPlace $"/e" EDenied))) = ConfigErr.
-Proof. vm_compute. auto. Qed.
+  load_config mini_parse (with_chain ex_layout [mkPlace $"/w/.dippy" (ELink EDenied)]) = ConfigErr /\
+  load_config mini_parse (with_env ex_layout (EnvAt (mkPlace $"/e" EDenied))) = ConfigErr /\
+  load_config mini_parse (with_env ex_layout (EnvAt (mkPlace $"/e" (EFile RDecode)))) = Crash.
+Proof. vm_compute. repeat split; eauto. Qed.
